@@ -176,6 +176,7 @@ def main():
     warnings.simplefilter("ignore")
     for k, job in enumerate(jobs):
         np.random.seed(job["seed"] % (2 ** 31))
+        _verif._emit({"ev": "job", "k": k})      # boundary marker: one nested-stream trace per job (NestedTrace.tla)
         try:
             obj, sol, is_app = make(job["cls"], job["max_iter"], job["seed"], job["variant"])
         except Exception as e:  # construction failure is reported, not hidden
@@ -190,6 +191,7 @@ def main():
                     try:
                         a.update()
                     except ValueError as e:
+                        _verif._emit({"ev": "job.raise"})
                         if "injected" not in str(e):
                             raise
                     rec["obs"].append(["update", int(a.iter)])
@@ -201,6 +203,7 @@ def main():
                             while not a.done():
                                 a.update()
                         except ValueError as e:
+                            _verif._emit({"ev": "job.raise"})
                             if "injected" not in str(e):
                                 raise
                         rec["obs"].append(["loop", int(a.iter)])
@@ -221,6 +224,7 @@ def main():
                                   "changed": int(changed), "breakdown": int(brk)})
                     rec["probe"] = {"changed": int(changed), "breakdown": int(brk), "at_iter": int(a.iter) - 1}
         except Exception as e:
+            _verif._emit({"ev": "job.raise"})
             rec["error"] = "drive: %r" % (e,)
         targets.append(rec)
     json.dump(targets, open(sys.argv[2], "w"))
